@@ -90,7 +90,10 @@ struct Ledger {
         size_t idx = l->allocs++;
         // a failing allocator reports failure through its return value; what it leaves in *m is its own business: NULL, nothing at all
         // (the caller's variable keeps what it held), or a pointer that must not be used
-        if (idx < 64 && (l->failmask >> idx) & 1) { l->failed++; switch ((idx + l->blocksize) % 3) { case 0: *m = nullptr; break; case 1: break; default: *m = (void *)(uintptr_t)0x10; } return -ENOMEM; }
+        if (idx < 64 && (l->failmask >> idx) & 1) { l->failed++; switch ((idx + l->blocksize) % 3) { case 0: *m = nullptr; break; case 1: break; default: *m = (void *)(uintptr_t)0x10; }
+            // ... and so is the negative code it fails with: a pool with a timeout answers -EAGAIN, an interrupted one -EINTR
+            static const int CODES[4] = {-ENOMEM, -EAGAIN, -EINTR, -EIO};
+            return CODES[(idx / 3 + l->blocksize / 4) % 4]; }
         *m = malloc(n);
         memset(*m, 0xd7, n);
         l->live.push_back(*m);
